@@ -242,6 +242,11 @@ pub fn check(ctx: &mut Ctx, prop: &str, ev: &Eval) {
             }
         }
         "C07" => {
+            // the same call with the library's output verification switched on must return as well
+            if ctx.evals % 3 == 0 {
+                let family = ev.id.split(':').next().unwrap_or("?").to_string();
+                crate::props::c07x::verified(ctx, &ev.id, &ev.src, cfg, ev.range, &family, false);
+            }
             // logical-step budget: ticks relative to the number of significant tokens
             let ntok = lex::lex(&ev.src).map(|l| l.toks().count()).unwrap_or(1).max(1) as u64;
             let ratio = out.ticks / ntok;
